@@ -7,10 +7,11 @@
 //!
 use std::{collections::VecDeque, fmt, sync::Arc};
 
-use crate::{
-    ctx,
-    sync::{self, watch},
-};
+#[cfg(not(era_consensus_verif))]
+use crate::sync::watch;
+#[cfg(era_consensus_verif)]
+use crate::verif::watch_shim as watch;
+use crate::{ctx, sync};
 
 #[cfg(test)]
 mod tests;
